@@ -51,6 +51,12 @@ def universe(rng, thorough):
     for a, b in pairs:
         add("%s|%s" % (a, b), N(T(a), T(b)), kind="union", members=(a, b))
         add("%s|%s'" % (b, a), N(T(b), T(a)), kind="union", members=(b, a), perm_of="%s|%s" % (a, b))
+    # unions with a nullable member (mixed nullability), both storage orders
+    mixed = [("Int", "Str"), ("A", "Str"), ("B", "X"), ("Str", "Int"), ("C", "D"), ("Float", "Bool")]
+    for a, b in (mixed if thorough else mixed[:4]):
+        add("%s?|%s" % (a, b), N(T(a, True), T(b)), kind="union", members=(a + "?", b))
+        add("%s|%s?'" % (b, a), N(T(b), T(a, True)), kind="union", members=(b, a + "?"), perm_of="%s?|%s" % (a, b))
+    add("Int?|Str?", N(T("Int", True), T("Str", True)), kind="union", members=("Int?", "Str?"))
     # generic instantiations, depth 1 and 2
     args = ["Int", "Float", "Str", "B", "A", "X"]
     for g in ("List", "Set"):
@@ -72,3 +78,26 @@ def universe(rng, thorough):
     add("Callable[[],Int]", single("Callable", gens=[N(T("")), single("Int")]), kind="callable")
     add("()", N(), kind="empty")
     return U
+
+
+def syntax(x):
+    """Mamba source syntax of a name of the universe; None when the grammar cannot spell it
+    (nested generics, nullable generic arguments, one-element tuples, callables, the empty name)"""
+    if x[0] == "N":
+        ms = [syntax(m) for m in x[2]]
+        if not ms or any(m is None for m in ms):
+            return None
+        return ms[0] if len(ms) == 1 else "{" + ", ".join(ms) + "}"
+    _, nullable, _mutable, base, gens = x
+    if base in ("", "Callable"):
+        return None
+    gs = [syntax(g) for g in gens]
+    if any(g is None or "[" in g or "?" in g for g in gs):
+        return None
+    if base == "Tuple":
+        if len(gs) < 2:
+            return None
+        s = "(" + ", ".join(gs) + ")"
+    else:
+        s = base + ("[" + ", ".join(gs) + "]" if gs else "")
+    return s + ("?" if nullable else "")
